@@ -919,3 +919,33 @@ fn check_inner(
         0
     }
 }
+
+
+/// Append the statistics of a libFuzzer campaign (same decoder, same oracle) to the evidence file.
+pub fn fuzz_note(id: &str, plan: &str, execs: u64, corpus_files: u64, wall_s: f64) -> i32 {
+    let path = root().join("evidence").join(format!("{}.json", id));
+    let text = match std::fs::read_to_string(&path) {
+        Ok(t) => t,
+        Err(_) => return 2,
+    };
+    let mut v: serde_json::Value = match serde_json::from_str(&text) {
+        Ok(v) => v,
+        Err(_) => return 2,
+    };
+    let entry = serde_json::json!({
+        "engine": "libFuzzer (cargo-fuzz), coverage-guided mutation of the same case bytes through the same decoder and oracle",
+        "plan": plan, "executions": execs, "corpus_files_after": corpus_files, "wall_s": wall_s,
+    });
+    let cov = &mut v["coverage"];
+    if !cov["libfuzzer"].is_array() {
+        cov["libfuzzer"] = serde_json::json!([]);
+    }
+    cov["libfuzzer"].as_array_mut().unwrap().push(entry);
+    if let Some(w) = v["wall_s"].as_f64() {
+        v["wall_s"] = serde_json::json!(w + wall_s);
+    }
+    match std::fs::write(&path, serde_json::to_string_pretty(&v).unwrap()) {
+        Ok(()) => 0,
+        Err(_) => 2,
+    }
+}
